@@ -327,6 +327,12 @@ class Spec:
             if not self.fake:
                 self.clock = self.R
             exp = "ok"
+        elif op == "gate" and len(t) == 4 and t[1].isdigit() and t[2].isdigit() and 1 <= int(t[2]) <= 1000000 and t[3] in ("0", "1"):
+            exp, klass = "ok", "handshake"
+        elif op in ("await", "release") and len(t) == 2 and t[1].isdigit():
+            exp, klass = "ok", "handshake"      # "timeout" = the poller never got there: a failure of the scenario
+        elif op == "settle" and len(t) == 1:
+            exp, klass = "ok", "handshake"
         elif op == "cost" and len(t) == 2 and t[1].isdigit() and int(t[1]) < 1 << 64:
             if self.cb is None:
                 exp = "none"
@@ -826,7 +832,8 @@ def gen_adversarial(rng):
             "itc q", "itc q -1", "itc q 4294967296", "itcset q0 18446744073709551616", "itcev nope", "itcreset nope", "itcset nope 3", "itcset", "clock",
             "clock x", "wait", "wait x", "cost", "cost x", "cost 99999999999999999999999", "soln", "soln 2 0", "soln 0",
             "solnclear now", "solve", "solve x", "frobnicate", "EV %s" % a, "def z itc nope", "def z poll 0 itc nope",
-            "itcspin nope 3", "itcspin"]
+            "itcspin nope 3", "itcspin", "gate", "gate 0 0 1", "gate 0 1 2", "gate x 1 0", "await", "await x", "release x",
+            "settle now"]
     for _ in range(r.range(8, 25)):
         g.add(r.choice(junk))
         if r.chance(1, 3):
@@ -912,6 +919,44 @@ def gen_real(rng, variant):
         g.ev(n)
         g.add("term " + n)
         g.ev(n)
+    return g.lines
+
+
+def gen_handshake(rng, k, verdict, variant):
+    """terminate() placed by handshake (no sleeps, no timing claims) relative to the poller thread's k-th
+    invocation of the predicate, which blocks on entry until released and then returns `verdict`:
+      inflight     terminate() while the poller is inside the call; the call then returns and the poller
+                   stores its (stale) result, sees the flag and exits
+      after-store  the call returns first, terminate() follows (long period: the next call is far away)
+      before-next  same with a 1 ms period: terminate() lands wherever the poller is by then
+    Whatever the poller does afterwards, every evaluation after terminate() must answer true."""
+    g = G(rng, fake=True)
+    r = rng
+    per = {"inflight": 0.001, "after-store": 0.3, "before-next": 0.001}[variant]
+    g.add("script 0 %d" % r.below(2))
+    g.add("gate 0 %d %d" % (k, verdict))
+    p = g.define("poll %s pred 0" % fb(per))
+    q = g.fresh()
+    g.add("copy %s %s" % (p, q))
+    g.names.append(q)
+    g.add("await 0")
+    tgt = r.choice([p, q])
+    if variant == "inflight":
+        g.add("term " + tgt)
+        g.ev(p)                      # the poller is still blocked inside the predicate
+        g.add("release 0")
+        g.ev(q)                      # it may or may not have stored by now
+    else:
+        g.add("release 0")
+        g.add("term " + tgt)
+        g.ev(p)
+    g.add("settle")                  # the poller has stored whatever it had and has left its loop
+    for _ in range(3):
+        g.ev(r.choice([p, q]))
+    g.add("drop " + q)
+    g.ev(p)
+    g.add("script 0 %d" % (1 - verdict))
+    g.ev(p)
     return g.lines
 
 
@@ -1100,6 +1145,12 @@ def run(ck):
         jobs.append(("timed-fake-clock", gen_timed_fake(ck.rng.fork("timed%d" % i))))
     for i in range(n_adv):
         jobs.append(("adversarial", gen_adversarial(ck.rng.fork("adv%d" % i))))
+    for rep in range(1 if quick else 8):
+        for k in (1, 2, 3):
+            for verdict in (0, 1):
+                for variant in ("inflight", "after-store", "before-next"):
+                    jobs.append(("handshake-" + variant,
+                                 gen_handshake(ck.rng.fork("hs%d-%d-%d-%s" % (rep, k, verdict, variant)), k, verdict, variant)))
     real = []
     for i in range(3 if quick else 9):
         real.append(("real-clock", gen_real(ck.rng.fork("real%d" % i), i % 3)))
